@@ -309,16 +309,6 @@ theorem refine_lorentz_Et (k0 : Az) (k1 : Lon) (k2 : Tmp) (a b c d : ℝ)
   rw [e, refine_lorentz_t k0 k1 k2 a b c d h.2 hd, Et_sqrt_Et2 k0 k1 a b c _ h ht,
     Et2_core k0 k1 a b c _ h.2 hm]
 
-/-- FINDING: for `t < 0` the value of `Et` depends on the coordinate system in which the SAME vector
-`(x, y, z, t) = (1, 0, 0, -1)` is stored: `xy_z_t` computes `√Et2 = |t| ρ/|p|`, all other variants `t ρ/|p|`. -/
-theorem lorentz_Et_neg_t_key_dependent :
-    cart4 .xy .z .t 1 0 0 (-1) = cart4 .rhophi .z .t 1 0 0 (-1)
-    ∧ lorentz_Et.eval .xy .z .t 1 0 0 (-1) = 1 ∧ lorentz_Et.eval .rhophi .z .t 1 0 0 (-1) = -1 := by
-  refine ⟨?_, ?_, ?_⟩
-  · simp [cart4, xOf, yOf, zOf, tOf]
-  · simp [d_lorentz_Et, d_lorentz_Et2]
-  · simp [d_lorentz_Et]
-
 example : Canon3 .rhophi .z 1 0 0 ∧ CanonTmp .t 2 ∧ 0 < mag2Of .rhophi .z 1 0 0
     ∧ 0 ≤ tOf .rhophi .z .t 1 0 0 2 := by
   simp [Canon3, Canon2, CanonLon, CanonTmp, tOf, mag2Of, xOf, yOf, zOf]
@@ -408,23 +398,6 @@ theorem refine_lorentz_to_beta3_partial (k0 : Az) (k1 : Lon) (k2 : Tmp) (a b c d
       = some (xOf k0 a b / tOf k0 k1 k2 a b c d, yOf k0 a b / tOf k0 k1 k2 a b c d,
           zOf k0 k1 a b c / tOf k0 k1 k2 a b c d) :=
   refine_lorentz_to_beta3_ne_zero k0 k1 k2 a b c d h hd (ne_of_gt ht) (fun _ => Or.inr ht)
-
-/-- FINDING: with `t < 0` the `xy_eta_t` variant returns the wrong vector: for the representable input
-`(x, y, η, t) = (1, 0, 1, -1)` the result `(-1, 0, η = 1)` denotes `z = sinh 1`, but `z / t = -sinh 1`. -/
-theorem lorentz_to_beta3_neg_t_fails :
-    Canon4 .xy .eta .t 1 0 1 (-1) ∧ tOf .xy .eta .t 1 0 1 (-1) ≠ 0 ∧
-    interp3 (lorentz_to_beta3.ret .xy .eta .t) (lorentz_to_beta3.eval .xy .eta .t 1 0 1 (-1))
-      ≠ some (xOf .xy 1 0 / tOf .xy .eta .t 1 0 1 (-1), yOf .xy 1 0 / tOf .xy .eta .t 1 0 1 (-1),
-          zOf .xy .eta 1 0 1 / tOf .xy .eta .t 1 0 1 (-1)) := by
-  refine ⟨?_, ?_, ?_⟩
-  · simp [Canon4, Canon3, Canon2, CanonLon, CanonTmp, rhoOf]
-  · simp [tOf]
-  · simp only [d_lorentz_to_beta3, interp3, retAz, retLon, cart3, xOf, yOf, zOf, rhoOf, tOf,
-      Option.some.injEq, Prod.mk.injEq, ne_eq, not_and]
-    intro _ _ h3
-    have hs : 0 < sinh (1 : ℝ) := Real.sinh_pos_iff.mpr one_pos
-    norm_num at h3
-    linarith
 
 example : CanonLon .xy .eta 1 0 1 ∧ CanonTmp .t 2 ∧ 0 < tOf .xy .eta .t 1 0 1 2 := by
   simp [CanonLon, CanonTmp, rhoOf, tOf]
